@@ -144,11 +144,37 @@ def render(hist, info, choices):
     return lines
 
 
+def stratified(edges, keep, rng):
+    """seeded sample of the edges that takes one edge of every call signature (which calls, on which slot, in which order), shortest
+    signatures first, then a second one, ... until keep edges are taken"""
+    if len(edges) <= keep:
+        return list(edges)
+    groups = {}
+    for e in edges:
+        groups.setdefault(tuple((o[0], o[1]) for o in e), []).append(e)
+    order = sorted(groups, key=lambda k: (len(k), rng.random()))
+    for k in order:
+        rng.shuffle(groups[k])
+    res = []
+    while len(res) < keep:
+        progressed = False
+        for k in order:
+            if groups[k]:
+                res.append(groups[k].pop())
+                progressed = True
+                if len(res) >= keep:
+                    break
+        if not progressed:
+            break
+    return res
+
+
 def run_generic(ctx, two_slots, replay=None):
     prop = ctx.prop
     ctx.build_lib()
     exe = ctx.cc("hwv_topo.c", "hwv_topo")
-    replay_fn = c01.make_replay(ctx, exe)
+    env = {"HWV_LEAKCHECK": "1"}          # LeakSanitizer after every behaviour: a leak is an event no specification action accepts
+    replay_fn = c01.make_replay(ctx, exe, env=env)
     if replay:
         rej = replay_fn(open(replay).read())
         for r in rej:
@@ -175,8 +201,8 @@ def run_generic(ctx, two_slots, replay=None):
             raise vlib.Infra("MC_TopoOps failed for %s (model-level): %s\n%s" % (name, st["error"], out[-2000:]))
         edges = list(vlib.tlc_printed(out, "EDGE"))
         ctx.extra["edges_" + name] = len(edges)
-        keep = (30000 if thorough else 500) // (2 if two_slots else 1)
-        hists += edges if len(edges) <= keep else rng.sample(edges, keep)       # seeded sample of the state-graph edges
+        keep = 15000 if thorough else 500
+        hists += stratified(edges, keep, rng)       # seeded sample of the state-graph edges, spread over the call signatures
         # simulation: long histories
         simlen = 10 if thorough else 8
         out, st = ctx.tlc_mc("MC_TopoOps_gen", mc_cfg(simlen, two_slots, 1, 0, simlen, False), tag="ops_sim_" + name,
@@ -195,7 +221,7 @@ def run_generic(ctx, two_slots, replay=None):
     bf = ctx.path("behaviours.txt")
     open(bf, "w").write("".join(behs))
     tf = ctx.path("trace.ndjson")
-    ctx.record(exe, bf, tf, timeout=3000, parallel=vlib.NCPU)
+    ctx.record(exe, bf, tf, timeout=3000, parallel=vlib.NCPU, env=env)
     rejs = ctx.validate("TraceTopo", tf, nshards=32 if thorough else 16, timeout=3000)
     ctx.handle_rejections(rejs, behs, replay_fn)
     return ctx.finish(
